@@ -25,6 +25,28 @@ def proj_client(scn, d, cid):
                 out.append(strip_serial(l))
     return out
 
+def restrict(scn, cid):
+    """the history of scn restricted to client cid's own events (its lines, the replies whose tag names it, the reloads); the serial
+       in reply tags is rewritten from the instance's serial in scn to its serial in the restricted history"""
+    sh_all = Shadow(scn.svcs, scn.timeout, scn.with_xq); sh_own = Shadow(scn.svcs, scn.timeout, scn.with_xq)
+    smap = {}            # serial of an instance of cid in scn -> serial in the restricted history
+    items = []
+    for it in scn.items:
+        if it[0] != 'L':
+            items.append(it); sh_all.svcs = [(n_, t_.lower()) for n_, t_ in it[1]]; sh_own.svcs = list(sh_all.svcs); continue
+        line = it[1].decode('latin1'); toks = line.split(' ')
+        before = sh_all.serial; sh_all.step(line)
+        mine = toks[0] == str(cid) and not (len(toks) > 1 and toks[1][:1] in ('X', 'x'))
+        if len(toks) > 3 and toks[1] in ('X', 'x'):
+            tid, ser = tag_id(toks[3])
+            if tid != cid or ser not in smap: continue
+            toks[3] = "%s_%x" % (toks[3].split('_')[0], smap[ser]); line = ' '.join(toks); mine = True
+        if not mine: continue
+        b2 = sh_own.serial; sh_own.step(line)
+        if sh_all.serial != before and sh_own.serial != b2: smap[sh_all.serial] = sh_own.serial
+        items.append(('L', line.encode('latin1')))
+    return Scn(scn.with_xq, scn.with_class, scn.svcs, scn.rules, scn.timeout, items, "client %d alone (its own events of the history above)" % cid)
+
 def run(chk):
     env = setup(chk)
     if env is None: return
@@ -191,6 +213,18 @@ def run(chk):
             continue
         if [(l, n_) for l, n_ in d.steps] != m:
             k = next((i for i in range(min(len(m), len(d.steps))) if m[i] != d.steps[i]), 0)
+            # search for a concrete input on which the property itself fails: every client of this history alone
+            found = None
+            cids = sorted({int(it[1].split(b' ')[0]) for it in scn.items if it[0] == 'L' and re.fullmatch(rb"-?\d+", it[1].split(b' ')[0]) and it[1].split(b' ')[0] != b'-1'})
+            alone = [restrict(scn, c_) for c_ in cids]
+            for c_, s_, d_ in zip(cids, alone, run_daemons(impl, alone)):
+                if d.rc == 0 and d_.rc == 0 and proj_client(s_, d_, c_) != proj_client(scn, d, c_):
+                    found = (c_, s_, d_); break
+            if found:
+                c_, s_, d_ = found
+                chk.violation("the conversation about client %d depends on other clients' traffic: interleaved %r, alone %r" % (c_, proj_client(scn, d, c_)[:6], proj_client(s_, d_, c_)[:6]),
+                              "interleaved history:\n%s\n\ndaemon output:\n%s\n\n%s:\n%s\n\ndaemon output:\n%s\n" % (scn.describe(), fmt_steps(scn, d.steps), s_.note, s_.describe(), fmt_steps(s_, d_.steps)), "interfere:%d" % c_)
+                continue
             chk.violation("model and daemon disagree on an interleaved history (step %d: daemon %r, model %r)" % (k, d.steps[k] if k < len(d.steps) else None, m[k] if k < len(m) else None), replay_text(scn, d, m), "corr:interleave", found_input=False)
             continue
         chk.cov["traces_validated_against_impl"] += 1
